@@ -65,6 +65,10 @@ def inputs(run: Run, cfg: dict) -> list[dict]:
         add(c["src"], "lexgen", c["lex"])
         if cases and cases[-1]["src"] == c["src"]:
             cases[-1]["predicted"] = c
+    for c in gens.indent(run):
+        add(c["src"], "indent.tla")
+        if cases and cases[-1]["src"] == c["src"]:
+            cases[-1]["predicted_layout"] = c
     from . import c10
 
     for c in c10.generate(run, run.tier)[:: (3 if run.tier == "quick" else 1)]:
@@ -102,6 +106,15 @@ def check(run: Run) -> None:
     if d:
         run.drift["LexGen.tla prediction vs real token stream"] = len(d)
         run.extra["lexgen_drift_examples"] = d[:5]
+    # refinement: the line-structure model (Indent.tla) predicts INDENT / DEDENT / NEWLINE / NL, the end tokens and the errors
+    from .. import indent
+
+    ix = [(c["predicted_layout"], r) for c, r in zip(cases, res) if "predicted_layout" in c]
+    d = indent.drift([a for a, _ in ix], [b for _, b in ix])
+    run.extra["indent_layouts_predicted"] = len(ix)
+    if d:
+        run.drift["Indent.tla prediction vs real token stream"] = len(d)
+        run.extra["indent_drift_examples"] = d[:5]
     verdicts = validate_traces(run, "TokStream", traces, name="tokstream")
     for i, (clause, k) in sorted(verdicts.items()):
         if clause != "ok":
